@@ -16,6 +16,8 @@ PRISTINE_PYTHON = '/venv/bin/python'
 NPROC = int(os.environ.get('VERIF_JOBS', '16'))
 
 HARNESS_ERROR = 2
+# global budget (seconds of unit starts) of a thorough run; units themselves have their own caps
+THOROUGH_S = int(os.environ.get('VERIF_THOROUGH_BUDGET', '1500'))
 
 
 def seed():
@@ -323,6 +325,10 @@ def sym_input(E, unit, name='s'):
             cs[p] = c
         return E.SStr(cs), chars
     x, chars = E.symstr(unit['L'], name, lo, hi)
+    if unit.get('shape') in ('list', 'tuple'):
+        # a sequence of one-character strings: clean() joins them, so this is a real path into the validators
+        seq = [E.SStr([c]) for c in chars]
+        return (seq if unit['shape'] == 'list' else tuple(seq)), chars
     for ch in unit.get('exclude') or '':
         for c in chars:
             E.assume(c != ord(ch))
